@@ -9,6 +9,8 @@
 //                     spin    : std::unique_lock<pika::concurrency::detail::spinlock>
 //   flag=0|1          initial value of the shared variable the predicate reads
 // Thread ops: lock ; unlock ; set v ; n1 ; nall ; wait ; waitp ; twait ; twaitp
+//   swaitp ; stwaitp ; stop   (condition_variable_any only: stop-token waits and request_stop on one
+//   shared stop_source; exercised by hand / by notes/C07.md, not yet part of the Lean model)
 //
 // Events logged by the harness itself (besides the hook events compiled into pika):
 //   inv.<op> (point)   ul.lock (point) / ul.spin (point, spinning) / ul.acq / ul.rel
@@ -18,8 +20,10 @@
 
 #include <pika/concurrency/spinlock.hpp>
 #include <pika/synchronization/condition_variable.hpp>
+#include <pika/synchronization/stop_token.hpp>
 
 #include <chrono>
+#include <csignal>
 #include <memory>
 #include <mutex>
 
@@ -45,7 +49,7 @@ struct ulock_t
 };
 
 template <typename CV, typename M, typename L>
-static void body(case_t const& c, int i, CV* cv, M* m, bool* flag, bool raw)
+static void body(case_t const& c, int i, CV* cv, M* m, bool* flag, bool raw, pika::stop_source* ssrc)
 {
     L lk = [&]() -> L {
         if constexpr (std::is_same_v<L, M&>) return *m;
@@ -113,6 +117,27 @@ static void body(case_t const& c, int i, CV* cv, M* m, bool* flag, bool raw)
                 bool r = cv->wait_for(lk, std::chrono::seconds(1), pred);
                 nt("ret", cv, r ? 1 : 0);
             }
+            else if constexpr (std::is_same_v<CV, pika::condition_variable_any>)
+            {
+                if (op.name == "swaitp")
+                {
+                    pt("inv.swaitp", cv);
+                    bool r = cv->wait(lk, ssrc->get_token(), pred);
+                    nt("ret", cv, r ? 1 : 0);
+                }
+                else if (op.name == "stwaitp")
+                {
+                    pt("inv.stwaitp", cv);
+                    bool r = cv->wait_for(lk, ssrc->get_token(), std::chrono::seconds(1), pred);
+                    nt("ret", cv, r ? 1 : 0);
+                }
+                else if (op.name == "stop")
+                {
+                    pt("inv.stop", cv);
+                    bool r = ssrc->request_stop();
+                    nt("ret", cv, r ? 1 : 0);
+                }
+            }
         }
         catch (std::exception const& e)
         {
@@ -128,6 +153,7 @@ static void run_with(case_t const& c, controller* ctl)
     auto* m = new M;
     auto* cv = new CV;
     auto* flag = new bool(c.geti("flag", 0) != 0);
+    auto* ssrc = new pika::stop_source;
     // stable object ids: 1 = user lock, 2 = cv object, 3 = flag; the internal spinlock and the
     // detail cv get the next ids at first use
     ctl->name_obj(m);
@@ -135,12 +161,26 @@ static void run_with(case_t const& c, controller* ctl)
     ctl->name_obj(flag);
     std::vector<std::function<void()>> bodies;
     for (int i = 0; i < k; ++i)
-        bodies.push_back([=, &c] { body<CV, M, L>(c, i, cv, m, flag, false); });
+        bodies.push_back([=, &c] { body<CV, M, L>(c, i, cv, m, flag, false, ssrc); });
     run_os_threads(*ctl, bodies);
+}
+
+// A crash inside the real code (e.g. a use-after-return) would lose the log; print what was logged so
+// far, then die with the original signal so that the runner reports `end crash signal=N`.
+static void crash_dump(int sig)
+{
+    if (g_ctl != nullptr)
+        for (auto const& l : g_ctl->log) std::puts(l.c_str());
+    std::fflush(stdout);
+    signal(sig, SIG_DFL);
+    raise(sig);
 }
 
 static void run_one(case_t const& c)
 {
+    signal(SIGSEGV, crash_dump);
+    signal(SIGBUS, crash_dump);
+    signal(SIGABRT, crash_dump);
     int k = int(c.threads.size());
     auto* ctl = new controller(k, std::uint64_t(c.geti("seed", 1)), int(c.geti("strat", 0)));
     ctl->max_steps = std::size_t(c.geti("maxsteps", 20000));
